@@ -16,6 +16,7 @@ import (
 	"strconv"
 	"strings"
 	"testing"
+	"time"
 
 	"github.com/deadsy/sdfx/obj"
 	"github.com/deadsy/sdfx/render"
@@ -130,6 +131,9 @@ type outcome struct {
 	alloc uint64
 }
 
+// hangDeadline: see checkTotal. Generous against a machine that is busy with other checks.
+const hangDeadline = 120 * time.Second
+
 // measured runs f on this goroutine and reports panic and bytes allocated.
 func measured(f func(o *outcome)) (o outcome) {
 	var m0, m1 runtime.MemStats
@@ -179,7 +183,24 @@ func checkTotal(tb ev.TB, rec *ev.Rec, data []byte, family string) (labels []str
 	}
 
 	// --- render.LoadSTL
-	o := measured(func(o *outcome) { o.mesh, o.err = render.LoadSTL(path) })
+	// "never hangs": the loader runs under a watchdog. Inputs are at most maxInput bytes and load in
+	// microseconds; if the call has not come back after hangDeadline the case is reported as a hang, the
+	// input is saved as a replay file and the process ends at once (the spinning goroutine cannot be
+	// stopped, and shrinking a hang would cost the deadline per attempt).
+	var o outcome
+	{
+		done := make(chan outcome, 1)
+		go func() { done <- measured(func(o *outcome) { o.mesh, o.err = render.LoadSTL(path) }) }()
+		select {
+		case o = <-done:
+		case <-time.After(hangDeadline):
+			msg := fmt.Sprintf("render.LoadSTL did not return within %v\n%s", hangDeadline, desc())
+			rp := ev.WriteReplay("TestRegress", "LoadSTL:hang", mkCase("hang", data), msg)
+			fmt.Printf("VIOLATION-KEY[LoadSTL:hang] %s\nREPLAY-FILE: %s\n", msg, rp)
+			rec.Flush()
+			os.Exit(1)
+		}
+	}
 	switch {
 	case o.pan != nil:
 		labels = append(labels, "LoadSTL:panic")
